@@ -153,3 +153,75 @@ pub fn record(args: &Args) {
     sum.set("events", json!(nev));
     sum.write(args.opt("summary").unwrap_or("/dev/stdout"));
 }
+
+/// spec -> impl: perform TLC-generated operation lists (Gen_Subscriptions) on the real
+/// BroadcastingStore and record what the subscriber received, for Trace_Subscriptions.
+pub fn replay(args: &Args) {
+    let cases = h_common::read_cases(args.pos(2));
+    let mut tw = TraceWriter::create(args.opt("out").expect("--out"));
+    let mut sum = Summary::new("subs-replay");
+    h_common::QUIET_ALL.store(true, std::sync::atomic::Ordering::Relaxed);
+    let rt = tokio::runtime::Builder::new_current_thread().enable_all().start_paused(true).build().unwrap();
+    let mut g = ExtendedHeaderGenerator::new();
+    let chain = g.next_many_empty(40);
+    let hdr = |h: u64| chain[(h - 1) as usize].clone();
+    rt.block_on(async {
+        for (ci, c) in cases.iter().enumerate() {
+            tw.emit(json!({"name": "reset", "run": ci}));
+            let store = Arc::new(InMemoryStore::new());
+            let mut bs = VBroadcastingStore::new(store.clone());
+            let got: Arc<Mutex<Vec<u64>>> = Arc::new(Mutex::new(vec![]));
+            let mut rx = bs.subscribe();
+            let g2 = got.clone();
+            let sub = tokio::spawn(async move {
+                while let Ok(h) = rx.recv().await {
+                    g2.lock().unwrap().push(h.height());
+                }
+            });
+            let take = |got: &Arc<Mutex<Vec<u64>>>| -> Vec<u64> { std::mem::take(&mut *got.lock().unwrap()) };
+            let mut last_sent = 0u64;
+            let mut n_ops = 0;
+            for op in c["ops"].as_array().unwrap() {
+                let (a, b) = (op["a"].as_u64().unwrap(), op["b"].as_u64().unwrap());
+                match op["name"].as_str().unwrap() {
+                    "init" => {
+                        // try_init: insert the head unless it is the store head already; a refused
+                        // insert aborts the initialisation (the model's InitBroadcast is then disabled,
+                        // so TLC never generates it)
+                        let sh = store.head_height().await.unwrap_or(0);
+                        if sh != a && store.insert(hdr(a)).await.is_err() {
+                            continue;
+                        }
+                        bs.init_broadcast(hdr(a));
+                        settle().await;
+                        let dl = take(&got);
+                        if let Some(x) = dl.last() {
+                            last_sent = *x;
+                        }
+                        tw.emit(json!({"name": "init", "h": a, "dl": dl}));
+                    }
+                    _ => {
+                        // the caller's contract (checked by a debug_assert in the code)
+                        if last_sent == 0 || (a <= last_sent && last_sent <= b) {
+                            continue;
+                        }
+                        let r = bs.announce_insert((a..=b).map(hdr).collect()).await;
+                        settle().await;
+                        let dl = take(&got);
+                        if let Some(x) = dl.last() {
+                            last_sent = *x;
+                        }
+                        tw.emit(json!({"name": "insert", "lo": a, "hi": b, "res": r.is_ok() as u8, "dl": dl}));
+                    }
+                }
+                n_ops += 1;
+            }
+            drop(bs);
+            let _ = sub.await;
+            sum.case("C37", Some(format!("{}", c["ops"])), || json!({"ops": c["ops"], "performed": n_ops}));
+        }
+    });
+    let nev = tw.finish();
+    sum.set("events", json!(nev));
+    sum.write(args.opt("summary").unwrap_or("/dev/stdout"));
+}
